@@ -193,6 +193,12 @@ impl FrameWriter for QuicFrameWriter {
             ));
         }
         let fragments = Fragments::make_fragments(mtu.unwrap(), &mut self.frame_id, frame);
+        if !fragments.is_representable() {
+            return Err(IoError::new(
+                ErrorKind::InvalidInput,
+                "frame too large for the datagram size allowed by the peer",
+            ));
+        }
         let mut len = 0;
         for fragment in fragments {
             len += fragment.len();
